@@ -41,7 +41,8 @@ Proof. exact vals_of_norm. Qed.
 Print Assumptions C04_values_general.
 
 (* server stream object: for every program of SetHeader / SendHeader /
-   SetTrailer / SendMsg / SendTrailer calls, the first envelope written carries
+   SetTrailer / SendMsg / SendMsg-rejected-by-the-codec / SendTrailer calls (a
+   SendMsg that fails before writing does not consume the pending headers), the first envelope written carries
    all header metadata accepted (whichever flush path fires: explicit, with the
    first message, with the final status), no later envelope carries any *)
 Theorem C04_flush_headers : forall (MD P ST : Type) (s : sstate MD) (ops : list (sop MD P ST)),
@@ -157,4 +158,8 @@ Proof. vm_compute. reflexivity. Qed.
 Example C04_ex_sys_header_with_status :
   client_header (fun m => m) (@stream_envs nat nat [SetHeader [(B"A-Bin", [bz [7]%Z])]; SetTrailer [(B"t", [B"1"])]; SetHeader [(B"A-Bin", [bz [0]%Z])]] 5%nat)
   = Some (Some [(B"a-bin", [bz [7]%Z; bz [0]%Z])]).
+Proof. vm_compute. reflexivity. Qed.
+Example C04_ex_failed_send_keeps_headers :
+  swritten (@sinit nat) [SetHeader 1%nat; SendMsgBad 9%nat; SetHeader 2%nat; SendTrailer 0%nat]
+  = [WTrailer (Some [1%nat; 2%nat]) [] 0%nat].
 Proof. vm_compute. reflexivity. Qed.
